@@ -1,5 +1,6 @@
 from __future__ import annotations
 
+import io
 from typing import TYPE_CHECKING, Final, NewType
 
 from .tokenize import Token, TokenInfo
@@ -15,8 +16,11 @@ class Tokenizer:
 
     _tokens: list[TokenInfo]
 
-    def __init__(self, tokengen: Iterator[TokenInfo], *, path: str = "", verbose: bool = False):
+    def __init__(
+        self, tokengen: Iterator[TokenInfo], *, path: str = "", source: str | None = None, verbose: bool = False
+    ):
         self._tokengen = tokengen
+        self._source = source
         self._tokens = []
         self._index = Mark(0)
         self._verbose = verbose
@@ -173,14 +177,15 @@ class Tokenizer:
 
     def get_lines(self, line_numbers: list[int]) -> list[str]:
         """Retrieve source lines corresponding to line numbers."""
-        if self._lines:
-            lines = self._lines
-        else:
+        if self._path or self._source is not None:
+            # re-read the source: the token cache misses lines that start no token (blank or
+            # comment-only lines, the inside of multi-line strings, a final whitespace-only line)
             n = len(line_numbers)
             lines = {}
             count = 0
             seen = 0
-            with open(self._path, encoding="utf-8") as f:
+            src = open(self._path, encoding="utf-8") if self._path else io.StringIO(self._source, newline=None)
+            with src as f:
                 for line in f:
                     count += 1
                     if count in line_numbers:
@@ -188,8 +193,11 @@ class Tokenizer:
                         lines[count] = line
                         if seen == n:
                             break
+        else:
+            lines = self._lines
 
-        return [lines[n] for n in line_numbers]
+        # a span may reach one line past the end of the source (errors reported at EOF)
+        return [lines.get(n, "") for n in line_numbers]
 
     def mark(self) -> Mark:
         return self._index
